@@ -157,7 +157,17 @@ static inline void schema_elements(const Node& n, bool is_root, std::vector<TV>&
     else if (lay.root_rep >= 0) e.add(3, TV::I32(lay.root_rep));
     e.add(4, TV::Bin(n.name));
     if (!n.leaf) e.add(5, TV::I32((int64_t)n.kids.size()));
-    if (n.leaf && n.logical == 1 && n.type == T_BA) { e.add(6, TV::I32(0)); TV lt = TV::Struct(); lt.add(1, TV::Struct()); e.add(10, lt); }
+    if (n.leaf && n.logical) {
+        // LogicalType is a union: exactly one field, whose id says which type; converted_type (6) is the legacy twin, optional
+        static const int CONVERTED[16] = {-1, 0, -1, -1, 4, 5, 6, -1, -1, -1, -1, -1, 19, 20, -1, -1};
+        if (n.logical == 1 || (CONVERTED[n.logical] >= 0 && r.below(2))) e.add(6, TV::I32(CONVERTED[n.logical]));
+        if (n.logical == 5) { e.add(7, TV::I32(n.lp1)); e.add(8, TV::I32(n.lp2)); }
+        TV body = TV::Struct();
+        if (n.logical == 5) { body.add(1, TV::I32(n.lp1)); body.add(2, TV::I32(n.lp2)); }
+        else if (n.logical == 7 || n.logical == 8) { TV unit = TV::Struct(); unit.add(n.lp2, TV::Struct()); body.add(1, TV::Bool(n.lp1 != 0)); body.add(2, unit); }
+        else if (n.logical == 10) { body.add(1, TV::I8(n.lp1)); body.add(2, TV::Bool(n.lp2 != 0)); }
+        TV lt = TV::Struct(); lt.add(n.logical, body); e.add(10, lt);
+    }
     if (lay.junk_fields && r.below(3) == 0) add_junk(e, r);
     out.push_back(e);
     for (auto& k : n.kids) schema_elements(k, false, out, lay, r);
